@@ -81,6 +81,18 @@ def v1_world(ctx, shape, token_name):
     b = Broker(record_action_callback=actions.append)
     b.add_market(m)
     row = v1_row(shape, token_name)
+    if ctx.p.get("prior_bar"):
+        # an earlier bar with other weights, supply and pool composition, on which every fee figure is looked up: whatever the
+        # market remembers from it must not leak into the bar under test
+        import datetime as _dtm
+
+        prev = dict(row)
+        prev.update({"weth_weight": 35000, "wavax_weight": 5000, "usdc_weight": 30000, "usdg": SUPPLY * 3 // 2, "weth_usdg": row["weth_usdg"] * 2, "usdc_usdg": row["usdc_usdg"] // 2})
+        m.set_market_status(MarketStatus(TS - _dtm.timedelta(minutes=1), pd.Series(prev, dtype=object)), None)
+        for t in toks.values():
+            m.get_target_amount(t)
+            m.get_fee_basis_points(t, D(10) ** 21, True)
+            m.get_fee_basis_points(t, D(10) ** 21, False)
     m.set_market_status(MarketStatus(TS, pd.Series(row, dtype=object)), None)
     return m, b, toks, row, actions
 
@@ -384,6 +396,9 @@ def scenarios(tier):
             for inc in (True, False):
                 out.append(Scenario(f"v1/fee/{tok}/{sh}/{'buy' if inc else 'sell'}", v1_fee, params=dict(shape=sh, token=tok, increase=inc), shadows=V1_SHADOWS, entry=("GmxMarket.get_fee_basis_points", "get_target_amount"), nlsat=False, canary="CANARY fee is always the base fee" if sh == "near_above" else None))
             out.append(Scenario(f"v1/trade/{tok}/{sh}", v1_trade, params=dict(shape=sh, token=tok), shadows=V1_SHADOWS, entry=("GmxMarket.buy_glp", "sell_glp", "_add_liquidity", "_remove_liquidity", "buy_usdg", "sell_usdg", "get_fee_basis_points"), nlsat=False, relax_int=True, round_mode="uf", query_timeout_ms=30000, canary="CANARY round trip is free" if sh == "csv" else None, max_paths=300))
+        for sh in ("near_below", "above", "csv"):
+            for inc in (True, False):
+                out.append(Scenario(f"v1/fee_after_another_bar/{tok}/{sh}/{'buy' if inc else 'sell'}", v1_fee, params=dict(shape=sh, token=tok, increase=inc, prior_bar=True), shadows=V1_SHADOWS, entry=("GmxMarket.set_market_status", "GmxMarket.get_fee_basis_points", "get_target_amount"), nlsat=False))
         out.append(Scenario(f"v1/oversell/{tok}", v1_trade, params=dict(shape="csv", token=tok, oversell=True), shadows=V1_SHADOWS, entry=("GmxMarket.sell_glp",), nlsat=False, relax_int=True, round_mode="uf", max_paths=300))
     out.append(Scenario("v1/reward", v1_reward, shadows=V1_SHADOWS, entry=("GmxMarket.update", "_update_fee"), canary="CANARY no reward"))
     for sh in V2_ROWS:
